@@ -482,14 +482,14 @@ impl PreprocessorParser {
         start + l@.len() <= end,          // positions of the parse: the name starts at `start`, the use ends at `end`
     ensures
         // an unknown macro and a use of a macro that is being expanded are refused, and nothing is emitted
-        !has_key(old(context).macro_map@, l@) ==> r.is_err() && final(out).code@ == old(out).code@, //# C14 macro.unknown_macro_is_refused
+        !has_key(old(context).macro_map@, l@) ==> r.is_err() && final(out).code@ == old(out).code@, //# C14,C13 macro.unknown_macro_is_refused
         has_key(old(context).macro_map@, l@) && has_elem(old(context).macro_nesting_counter@, l@)
-            ==> r.is_err() && final(out).code@ == old(out).code@, //# C14 macro.recursive_use_is_refused
+            ==> r.is_err() && final(out).code@ == old(out).code@, //# C14,C13 macro.recursive_use_is_refused
         // the source position is frozen at this use only if no enclosing use froze it already, and released again
         final(context).mapper.v_lock() == old(context).mapper.v_lock(), //# C16 macro.freeze_and_release_are_balanced
         old(context).mapper.v_lock() > 0 ==> final(context).mapper.v_last() == old(context).mapper.v_last(), //# C16 macro.an_enclosing_use_keeps_its_position
         // the set of macros under expansion is restored whatever the expansion ended with
-        final(context).macro_nesting_counter@ == old(context).macro_nesting_counter@, //# C19 macro.expansion_set_is_restored
+        final(context).macro_nesting_counter@ == old(context).macro_nesting_counter@, //# C19,C13 macro.expansion_set_is_restored
         final(context).macro_map@ == old(context).macro_map@,
         final(out).code@.len() >= old(out).code@.len(), final(out).code@.subrange(0, old(out).code@.len() as int) == old(out).code@,
 //@end
